@@ -51,6 +51,11 @@ func (g *condGen) cond() string {
 	if g.r.Chance(1, 7) {
 		return PickStr(g.r, interpreterConds)
 	}
+	if g.r.Chance(1, 6) {
+		// package-qualified spellings are different names: a specifier matches
+		// a condition only when the two are equal
+		return "user:" + PickStr(g.r, condAlphabet)
+	}
 	return PickStr(g.r, condAlphabet)
 }
 
@@ -287,6 +292,9 @@ func (condEngine) Gen(r *Rand, tier string) any {
 			case 0:
 				f.Kind = "error"
 				f.Cond = PickStr(r, condAlphabet)
+				if r.Chance(1, 6) {
+					f.Cond = "user:" + f.Cond
+				}
 				nd := r.Range(0, 2)
 				for j := 0; j < nd; j++ {
 					if r.Bool() {
